@@ -345,6 +345,7 @@ func Run(clients []func(), schedule []uint16, maxSteps int) *RunResult {
 
 	res := &RunResult{Panics: map[int]string{}}
 	lastGrant = make([]int64, maxTasks)
+	onceReset()
 	setCur(s)
 	setAbort(false)
 	setActive(true)
@@ -542,3 +543,80 @@ func WGWait(wg *sync.WaitGroup, site string) {
 // a panicking client still holds the token (panics happen while running), so its id
 // is the current task; this helper exists to make that explicit.
 func setCurTaskIfMine(i int) { setCurTask(i) }
+
+// --- sync.Once -------------------------------------------------------------------------------------
+//
+// once.Do(f) blocks callers for real while another goroutine is inside f. If f reaches a scheduling
+// point, a second task calling Do would block the OS thread while holding the run token. OnceDo keeps
+// callers out at the simulator's level instead (they are parked as "blocked on the Once" until the
+// task inside returns), and calls the real Do, so the happens-before edge the code relies on is the
+// real one.
+
+var onceBusy [64]uint64 // addresses of the sync.Once values some task is inside; token holder only
+
+//go:norace
+func onceEnter(a uint64) bool {
+	free := -1
+	for i, v := range onceBusy {
+		if v == a {
+			return false
+		}
+		if v == 0 && free < 0 {
+			free = i
+		}
+	}
+	if free < 0 {
+		panic("simrt: too many sync.Once values in use at the same time")
+	}
+	onceBusy[free] = a
+	return true
+}
+
+//go:norace
+func onceReset() { onceBusy = [64]uint64{} }
+
+//go:norace
+func onceLeave(a uint64) {
+	for i, v := range onceBusy {
+		if v == a {
+			onceBusy[i] = 0
+		}
+	}
+}
+
+// OnceDo replaces o.Do(f).
+func OnceDo(o *sync.Once, f func(), site string) {
+	if !isActive() {
+		o.Do(f)
+		return
+	}
+	a := addrOf(o)
+	yieldEv(evYield, a)
+	for !onceEnter(a) {
+		yieldEv(evBlocked, a)
+	}
+	defer func() {
+		onceLeave(a)
+		if isActive() {
+			yieldEv(evReleased, a)
+		}
+	}()
+	o.Do(f)
+}
+
+// LockerLock / LockerUnlock replace Lock / Unlock through the sync.Locker interface.
+func LockerLock(l sync.Locker, site string) {
+	if m, ok := l.(mutexLike); ok {
+		Lock(m, site)
+		return
+	}
+	l.Lock()
+}
+
+func LockerUnlock(l sync.Locker, site string) {
+	if m, ok := l.(mutexLike); ok {
+		Unlock(m, site)
+		return
+	}
+	l.Unlock()
+}
